@@ -285,6 +285,8 @@ func TestMalformedRuleSetsAreRejectedNotFatal(t *testing.T) {
 			nmut++
 		}
 
+		vkit.Pending("rule set (%s), mutations %s:\n%s", ct, desc, raw)
+
 		parsed, applied, perr := loadRuleSetBytes(w, ct, raw, rapid.Bool().Draw(t, "viaUpdate"))
 
 		vkit.S.Eval()
@@ -481,7 +483,7 @@ func TestKeyStoreReloadsAreRejectedNotFatal(t *testing.T) {
 
 	rapid.Check(t, func(t *rapid.T) {
 		h := hs[rapid.IntRange(0, len(hs)-1).Draw(t, "holder")]
-		kind := rapid.SampledFrom([]string{"empty", "certs-only", "unsupported-key", "truncated", "blocks-dropped", "blocks-reordered", "garbage", "bitflip", "valid-other", "encrypted-without-password", "duplicate-key"}).Draw(t, "kind")
+		kind := rapid.SampledFrom([]string{"empty", "certs-only", "unsupported-key", "truncated", "blocks-dropped", "blocks-reordered", "garbage", "bitflip", "valid-other", "encrypted-without-password", "duplicate-key", "blocks-duplicated", "blocks-edited", "blocks-edited"}).Draw(t, "kind")
 
 		var content []byte
 
@@ -510,6 +512,49 @@ func TestKeyStoreReloadsAreRejectedNotFatal(t *testing.T) {
 			}
 
 			content = buf.Bytes()
+		case "blocks-duplicated", "blocks-edited":
+			// as produced by concatenating key, chain and CA bundle files: blocks repeated, dropped and moved
+			keys := []string{rapid.SampledFrom([]string{"ecp256", "ecp384", "rsa2048"}).Draw(t, "key")}
+			if rapid.Bool().Draw(t, "twoKeys") {
+				keys = append(keys, "rsa3072")
+			}
+
+			blocks := pemBlocks(validKeyStore(true, keys...))
+			nEdits := 1
+
+			if kind == "blocks-edited" {
+				nEdits = rapid.IntRange(1, 4).Draw(t, "edits")
+			}
+
+			for e := 0; e < nEdits && len(blocks) > 0; e++ {
+				i := rapid.IntRange(0, len(blocks)-1).Draw(t, "block")
+				op := "dup"
+
+				if kind == "blocks-edited" {
+					op = rapid.SampledFrom([]string{"dup", "dup", "drop", "move"}).Draw(t, "op")
+				}
+
+				b := blocks[i]
+
+				switch op {
+				case "dup":
+					j := rapid.IntRange(0, len(blocks)).Draw(t, "at")
+					blocks = append(blocks[:j], append([]*pem.Block{b}, blocks[j:]...)...)
+				case "drop":
+					blocks = append(blocks[:i:i], blocks[i+1:]...)
+				case "move":
+					blocks = append(blocks[:i:i], blocks[i+1:]...)
+					j := rapid.IntRange(0, len(blocks)).Draw(t, "to")
+					blocks = append(blocks[:j], append([]*pem.Block{b}, blocks[j:]...)...)
+				}
+			}
+
+			var buf bytes.Buffer
+			for _, b := range blocks {
+				_ = pem.Encode(&buf, b)
+			}
+
+			content = buf.Bytes()
 		case "garbage":
 			content = rapid.SliceOfN(rapid.Byte(), 0, 200).Draw(t, "bytes")
 		case "bitflip":
@@ -523,6 +568,8 @@ func TestKeyStoreReloadsAreRejectedNotFatal(t *testing.T) {
 		case "duplicate-key":
 			content = append(vkit.ReadFixture("ecp256.key.pem"), vkit.ReadFixture("ecp256.key.pem")...)
 		}
+
+		vkit.Pending("key store reload, holder %s, kind %s, content:\n%s", h.Name, kind, content)
 
 		err := reloadWith(h, content)
 
